@@ -81,12 +81,20 @@ func (g *FnGen) execCall(s *State, ins ssa.Instruction, com *ssa.CallCommon, res
 	if g.intrinsic(s, com, res) {
 		return
 	}
+	if g.isCallbackParam(com.Value) && !com.IsInvoke() {
+		g.execCallbackCall(s, com, res)
+		return
+	}
 	if com.IsInvoke() {
 		if g.boundInvoke(s, com, res) {
 			return
 		}
 	}
 	fc, ct := g.c.calleeContract(g, com)
+	if fc != nil && fc.Iterates != nil {
+		g.execIterCall(s, ins, com, res, fc, ct)
+		return
+	}
 	var args []TVal
 	if com.IsInvoke() {
 		args = append(args, TVal{term: g.term(s, com.Value), ty: Ty{sort: "Iface", gt: com.Value.Type()}})
@@ -170,7 +178,7 @@ func (g *FnGen) contractEnv(fc *FuncContract, ct *callTarget, cur, old *State, a
 	return env
 }
 
-func (g *FnGen) applyContract(s *State, fc *FuncContract, ct *callTarget, args []TVal, res ssa.Value, results *types.Tuple) {
+func (g *FnGen) applyContract(s *State, fc *FuncContract, ct *callTarget, args []TVal, res ssa.Value, results *types.Tuple) []TVal {
 	saved := g.c.curFile
 	g.c.curFile = g.c.ctrFile[fc]
 	defer func() { g.c.curFile = saved }()
@@ -188,7 +196,7 @@ func (g *FnGen) applyContract(s *State, fc *FuncContract, ct *callTarget, args [
 		g.panicIf(s, not(cond), "callee-panic:"+shortKey(ct.key))
 	}
 	if s.dead {
-		return
+		return nil
 	}
 	pre := s.clone()
 	// the callee's footprint must lie inside ours
@@ -227,7 +235,7 @@ func (g *FnGen) applyContract(s *State, fc *FuncContract, ct *callTarget, args [
 	sort.Strings(gl)
 	for _, name := range gl {
 		gd := g.c.ghosts[name]
-		s.ghosts[name] = g.fresh("G_"+name+"_c", g.c.specSort(gd.Sort, nil).sort)
+		s.ghosts[name] = g.fresh("G_"+name+"_c", g.ghostSort(gd))
 	}
 	g.assume(s, and(fr...))
 	outs := g.setResults(s, res, results, nil, shortFn(ct.key))
@@ -253,6 +261,7 @@ func (g *FnGen) applyContract(s *State, fc *FuncContract, ct *callTarget, args [
 		ens = append(ens, penv.boolExpr(e.E))
 	}
 	g.assume(s, and(ens...))
+	return outs
 }
 
 func shortFn(key string) string {
@@ -283,6 +292,11 @@ func (g *FnGen) execReturn(s *State, x *ssa.Return) {
 	for i, e := range g.fc.Ensures {
 		for j, c := range env.conjuncts(e.E) {
 			g.addObl(s, "ensures", fmt.Sprintf("ensures[%s]@ret%d", clauseID(e, i, j), g.retN), e.Src, e.Where, c)
+		}
+	}
+	for i, e := range g.fc.IterEnsures {
+		for j, c := range env.conjuncts(e.E) {
+			g.addObl(s, "ensures", fmt.Sprintf("iterates[%s]@ret%d", clauseID(e, i, j), g.retN), e.Src, e.Where, c)
 		}
 	}
 }
